@@ -115,13 +115,23 @@ def only_nan_where_differs(exp, obs):
 # ----------------------------------------------------------------------------- toy graphs for C02
 
 
-def gen_graph(rng):
+BIG = 2 ** 24 + 1          # an integer float32 cannot hold (rounds to 2**24); exact in float64 and int64
+DTYPES = ("float32", "float64", "int64")
+
+
+def dt_name(dt):
+    return str(dt).replace("torch.", "")
+
+
+def gen_graph(rng, mixed=False):
     """ind variables (1-2), optional population scalar / hyper-parameter, per-individual derived nodes (log2 of an
     individual variable, affine maps of per-individual nodes and scalars), aggregating nodes (sum over individuals),
     scalar nodes on top.  Random names decide the topological order."""
     n_ind = rng.choice([1, 2, 2, 3, 3, 4, 4])
-    with_log = rng.random() < 0.65
+    with_log = rng.random() < 0.65 and not mixed
     dtype = "float64" if with_log else rng.choice(["int64", "float64"])
+    if mixed:       # the dtype of the hyper-parameters and the default of the assignments; every assignment / proposal chooses its own
+        dtype = rng.choice(["float32", "float32", "float64", "int64"])
     names = rng.sample(T.NAME_POOL, 12)
     coefs = [c for c in range(-4, 6) if c != 0]
     nodes, axis_nodes, scalar_nodes, logs = [], [], [], []
@@ -166,6 +176,7 @@ def gen_graph(rng):
             last_agg["fun"][2].append(rng.choice([c for c in coefs if c not in last_agg["fun"][2]]))
     G = T.ToyGraph(nodes, n_ind, dtype)
     G.log_vars = set(logs)
+    G.mixed = mixed
     return G
 
 
@@ -236,14 +247,18 @@ def allowed_reads(G, v):
 
 
 def gen_template(rng, G):
-    """A sampler-shaped history with ONE individual step whose mask is left open (enumerated by the caller)."""
+    """A sampler-shaped history with ONE individual step whose mask is left open (enumerated by the caller).
+    Mixed-dtype graphs (`G.mixed`): every initial assignment and every proposal has its own dtype (float32 / float64 / int64); a proposal is
+    `put(v, delta, accumulate=True)` or the assignment `put(v, value)`; some rows of a proposal that float64 / int64 can hold get BIG = 2**24 + 1
+    added (not representable in float32) — decided when the step is executed, from the dtypes the state really holds (see StepRun.mixed_put)."""
     sett = G.settable()
     names = list(G.order)
+    mixed = getattr(G, "mixed", False)
     ops = [["mode", 0, rng.choice(["REF", "REF", "COPY"])]]
     cur = {}
     for n in sett:
         cur[n] = init_value(rng, G, n)
-        ops.append(["set", 0, n, cur[n]])
+        ops.append(["set", 0, n, cur[n]] + ([{"dtype": rng.choice(DTYPES + (G.dtype,))}] if mixed else []))
     for _ in range(rng.randint(0, 3)):
         ops.append(["get", 0, rng.choice(names)])
     steps = []
@@ -267,6 +282,9 @@ def gen_template(rng, G):
                     mid = mid + rng.sample(below, min(len(below), rng.randint(1, 3)))
             mask = None if s == enum_at else [rng.random() < 0.5 for _ in range(G.n_ind)]
             steps.append(dict(kind="ind", var=v, pre=pre, target=tgt, mid=mid, mask=mask))
+            if mixed:
+                steps[-1].update(pdtype=rng.choice(DTYPES + ("float64",)), how=rng.choice(["add", "add", "assign"]),
+                                 big=[rng.random() < 0.6 for _ in range(G.n_ind)], small=[rng.randint(-6, 6) for _ in range(G.n_ind)])
         else:
             idx = rng.randrange(G.n_ind) if (is_ind and rng.random() < 0.6) else None
             if idx is None:
@@ -276,6 +294,9 @@ def gen_template(rng, G):
             mid = [rng.choice(names) for _ in range(rng.randint(0, 3))]         # before a FULL rejection: anything
             steps.append(dict(kind="block", var=v, idx=idx, target=tgt, mid=mid, pre=[rng.choice(names) for _ in range(rng.randint(0, 2))],
                               reject=rng.random() < 0.6))
+            if mixed:
+                steps[-1].update(pdtype=rng.choice(DTYPES + ("float64",)), big=([rng.random() < 0.5 for _ in range(G.n_ind)] if (is_ind and idx is None) else rng.random() < 0.5),
+                                 small=[rng.randint(-6, 6) for _ in range(G.n_ind)])
         # the template does not know the outcome yet: `cur` is advanced when the history is instantiated
     later = list(names)
     rng.shuffle(later)
@@ -287,7 +308,12 @@ class StepRun:
 
     def __init__(self, run, G, tpl, mask):
         self.run, self.G, self.tpl, self.mask = run, G, tpl, mask
-        self.s = T.Session(G, oracle=False)
+        self.mixed = getattr(G, "mixed", False)
+        # mixed dtypes: the from-scratch oracle of C01 (every read bit for bit, DTYPE included, against a brand new state holding clones of the
+        # current independent values) runs after every operation
+        self.s = T.Session(G, oracle=self.mixed, fx=True)
+        self.s.dtype_strict = False
+        self.mixed_stats = {}
         self.cur = dict(tpl["init"])
         self.failures = []          # (signature, what, expected, observed, node, step)
         self.nonfinite_steps = 0
@@ -300,11 +326,82 @@ class StepRun:
             return [a(c, d) for c, d in zip(cur, delta)]
         return a(cur, delta)
 
+    def mixed_put(self, st, v, old, idx=None):
+        """the proposal of a mixed-dtype step, decided on the dtypes the state really holds: returns (op, new value).  Every tensor the harness
+        builds holds its JSON value exactly (BIG only in float64 / int64 tensors), no arithmetic of the State may round (a float32 result never
+        meets a BIG operand), and a per-individual selection between the two sides promotes to a dtype that holds both exactly."""
+        import torch
+        TD = {"float32": torch.float32, "float64": torch.float64, "int64": torch.int64}
+        wide = (torch.float64,)          # BIG lives in float64 tensors only: int64 + float32 (a node function) is float32 arithmetic
+        old_dt = self.s.states[0]._values[v].dtype
+        is_big = lambda x: isinstance(x, int) and abs(x) >= 2 ** 23
+        has_big = any(is_big(c) for c in (old if isinstance(old, list) else [old]))
+        fin = lambda x, alt: x if isinstance(x, int) else alt          # mixed steps stay finite (an int64 tensor cannot hold inf)
+        target = [fin(x, s_) for x, s_ in zip(st["target"], st["small"])] if isinstance(st["target"], list) else fin(st["target"], 1)
+        st = dict(st, target=target)
+        if idx is not None:         # index_put needs the dtype of the variable
+            d = delta_of(st["target"], old[idx]) + (BIG if (st["big"] is True and old_dt in wide) else 0)
+            new = list(old)
+            new[idx] = self.tensor_add(old[idx], d)
+            self.count_mixed("block, indexed put (same dtype)", old_dt, old_dt, d)
+            return ["put", 0, v, idx, d, True, {"dtype": dt_name(old_dt)}], new
+        p = TD[st["pdtype"]]
+        how = st.get("how", "add")
+        new_dt = torch.promote_types(old_dt, p) if how == "add" else p
+        res_dt = torch.promote_types(old_dt, new_dt) if st["kind"] == "ind" else new_dt
+        if has_big and (new_dt not in wide or res_dt not in wide):
+            p = torch.float64       # the state holds BIG: keep every result wide
+            new_dt = torch.promote_types(old_dt, p) if how == "add" else p
+            res_dt = torch.promote_types(old_dt, new_dt) if st["kind"] == "ind" else new_dt
+        big_ok = p in wide and new_dt in wide and res_dt in wide
+        rows = isinstance(old, list)
+        # BIG only in per-individual (1-d) tensors: `1-d float32 + 0-d float64` is float32 arithmetic in torch (a node function would round)
+        bigs = st["big"] if (rows and big_ok) else [False] * (len(old) if rows else 1)
+        if how == "assign":
+            base = st["target"] if (new_dt in wide or not has_big) else st["small"]
+            base = base if new_dt in wide else [b if not is_big(b) else s_ for b, s_ in zip(base, st["small"])]
+            new = [b + (BIG if g and isinstance(b, int) else 0) for b, g in zip(base, bigs)]
+            self.count_mixed(f"{st['kind']} step, assignment", old_dt, new_dt, new)
+            return ["put", 0, v, None, new, False, {"dtype": dt_name(p)}], new
+        d = delta_of(st["target"], old)
+        if any(is_big(x) for x in (d if rows else [d])) and p is not torch.float64:
+            # the template's target was drawn before BIG entered the state: the step itself is big, its tensor must be float64
+            p = new_dt = torch.float64
+            bigs = [False] * len(bigs)
+        if rows:
+            d = [x + (BIG if g and isinstance(x, int) else 0) for x, g in zip(d, bigs)]
+        elif bigs[0] and isinstance(d, int):
+            d += BIG
+        self.count_mixed(f"{st['kind']} step, accumulating put", old_dt, new_dt, d)
+        return ["put", 0, v, None, d, True, {"dtype": dt_name(p)}], self.tensor_add(old, d)
+
+    def count_mixed(self, what, old_dt, new_dt, val):
+        big = any(isinstance(x, int) and abs(x) >= 2 ** 23 for x in (val if isinstance(val, list) else [val]))
+        key = f"{what}: state {dt_name(old_dt)}, proposal {dt_name(new_dt)}" + (", values float32 cannot hold" if big else "")
+        self.mixed_stats[key] = self.mixed_stats.get(key, 0) + 1
+
+    def stored_rows(self, v, mask, t_old, t_new, what_step, step_no):
+        """mixed dtypes: the STORED tensor of the sampled variable after the per-individual decision — each rejected row is exactly the old
+        number, each accepted row exactly the proposed number (compared as exact Python numbers, so a rounding to a narrower dtype shows)"""
+        t = self.s.states[0]._values[v]
+        exp = [o if m else n for m, o, n in zip(mask, t_old.tolist(), t_new.tolist())]
+        obs = t.tolist()
+        same = len(exp) == len(obs) and all((e == o) or (e != e and o != o) for e, o in zip(exp, obs))
+        if not same:
+            acc_bad = any((not m) and not (n == o or (n != n and o != o)) for m, n, o in zip(mask, t_new.tolist(), obs))
+            self.failures.append(dict(sig="revert:accepted-rows-not-the-proposed-value" if acc_bad else "revert:rejected-rows-not-the-old-value",
+                                      what=f"after {what_step} the stored tensor does not hold exactly the proposed value on the accepted rows and the "
+                                           "previous value on the rejected rows",
+                                      node=v, step=step_no,
+                                      expected=dict(rows=[T.atom_json(x) for x in exp], old_dtype=dt_name(t_old.dtype), proposal_dtype=dt_name(t_new.dtype)),
+                                      observed=dict(rows=[T.atom_json(x) for x in obs], dtype=dt_name(t.dtype))))
+        return same
+
     def reference_reads(self):
         from leaspy.variables.state import State
         ref = State(self.G.dag)
         for n in self.G.settable():
-            ref[n] = self.G.tensor(self.cur[n])
+            ref[n] = self.G.tensor(self.cur[n], "float64" if self.mixed else None)      # mixed dtypes: exact values, compared as numbers
         out = {}
         for n in self.G.order:
             try:
@@ -353,8 +450,14 @@ class StepRun:
             old = self.cur[v]
             if st["kind"] == "ind":
                 new = st["target"]
-                s.apply(["put", 0, v, None, delta_of(new, old), True])
-                new = self.tensor_add(old, delta_of(new, old))
+                t_old = s.states[0]._values[v]
+                if self.mixed:
+                    op, new = self.mixed_put(st, v, old)
+                    s.apply(op)
+                else:
+                    s.apply(["put", 0, v, None, delta_of(new, old), True])
+                    new = self.tensor_add(old, delta_of(new, old))
+                t_new = s.states[0]._values[v]
                 for r in st["mid"]:
                     s.apply(["get", 0, r])
                 mask = self.mask if st["mask"] is None else st["mask"]
@@ -365,9 +468,13 @@ class StepRun:
                 self.nonfinite_steps += leak
                 s.apply(["revmask", 0, list(mask)])
                 self.cur[v] = where_rows(mask, old, new)
-                ok = self.check(k, f"revert(mask={[int(m) for m in mask]}) of a proposal on '{v}'", leak or self.nonfinite_steps > 0)
+                what_step = f"revert(mask={[int(m) for m in mask]}) of a proposal on '{v}'"
+                ok = (not self.mixed or self.stored_rows(v, mask, t_old, t_new, what_step, k)) and self.check(k, what_step, leak or self.nonfinite_steps > 0)
             else:
-                if st["idx"] is None:
+                if self.mixed:
+                    op, new = self.mixed_put(st, v, old, st["idx"])
+                    s.apply(op)
+                elif st["idx"] is None:
                     d = delta_of(st["target"], old)
                     s.apply(["put", 0, v, None, d, True])
                     new = self.tensor_add(old, d)
@@ -386,6 +493,12 @@ class StepRun:
                     self.cur[v] = new
                     what = f"an accepted proposal on '{v}'"
                 ok = self.check(k, what, self.nonfinite_steps > 0)
+            if self.mixed and ok and s.mismatches:
+                m = s.mismatches[0]
+                self.failures.append(dict(sig="revert:read-differs-from-scratch-evaluation(value-or-dtype)",
+                                          what="a read (value AND dtype, bit for bit) differs from the read of a brand new state holding clones of the current "
+                                               "independent values of the state", node=m["node"], step=k, expected=m["expected"], observed=m["observed"]))
+                ok = False
             self.step_ops_index.append(len(s.records))
             if not ok:
                 break
@@ -455,13 +568,14 @@ def correspond_weighted(run: Run, name, runs, metas):
     return bad
 
 
-def toy_steps(run: Run, n_templates, weighted=False):
+def toy_steps(run: Run, n_templates, weighted=False, mixed=False):
     runs, metas, asif = [], [], []
     masks_seen = {}
+    mstat = {}
     wstat = dict(histories=0, with_a_partial_revert_over_a_doubly_cached_weighted_node=0, of_which_the_weights_differ_between_the_sides=0)
     for t in range(n_templates):
-        rng = run.rng("c02-wtoy" if weighted else "c02-toy", t)
-        G = gen_wgraph(rng) if weighted else gen_graph(rng)
+        rng = run.rng("c02-wtoy" if weighted else "c02-mtoy" if mixed else "c02-toy", t)
+        G = gen_wgraph(rng) if weighted else gen_graph(rng, mixed=mixed)
         if weighted and not G.weighted:
             continue
         try:
@@ -483,7 +597,11 @@ def toy_steps(run: Run, n_templates, weighted=False):
             runs.append(sr)
             metas.append(dict(case=t, mask=[int(m) for m in mask]))
             masks_seen[G.n_ind] = masks_seen.get(G.n_ind, 0) + 1
-            run.case(("wtoy" if weighted else "toy", json.dumps(G.to_json(), sort_keys=True), json.dumps(sr.ops())), nontrivial=True)
+            run.case(("wtoy" if weighted else "mtoy" if mixed else "toy", json.dumps(G.to_json(), sort_keys=True), json.dumps(sr.ops())), nontrivial=True)
+            for key, n in sr.mixed_stats.items():
+                mstat[key] = mstat.get(key, 0) + n
+            if sr.s.dtype_only_diffs:
+                run.count("mixed_dtype_reads_with_the_from_scratch_numbers_in_another_dtype (counted, not judged)", "reads", sr.s.dtype_only_diffs)
             if weighted:
                 wstat["histories"] += 1
                 wstat["with_a_partial_revert_over_a_doubly_cached_weighted_node"] += bool(sr.s.weighted_masks)
@@ -504,6 +622,18 @@ def toy_steps(run: Run, n_templates, weighted=False):
                        f"differ between the two sides: {wstat}", kind="broken-correspondence")
         correspond_weighted(run, "wtoy", runs, metas)
         bad = run.vm_bad_indices("wasif", WHEADER, WASIF_TYPE, [r.asif_case() for r in asif], "(check_was_if wsem_where)", shard=150) or []
+    elif mixed:
+        wide_over_narrow = sum(n for k, n in mstat.items() if k.startswith("ind step") and "state float32, proposal float64, values float32 cannot hold" in k)
+        run.extra["mixed_dtype_toy_steps"] = dict(histories=len(runs), proposals=dict(sorted(mstat.items())),
+                                                  per_individual_steps_with_a_float64_proposal_float32_cannot_hold_over_a_float32_state=wide_over_narrow,
+                                                  note="every read compared by VALUE with the model inside Coq and with a float64 reference state, by value AND dtype "
+                                                       "with a brand new state holding clones of the current independent values; the stored tensor of the sampled "
+                                                       "variable compared row by row as exact numbers with the old / the proposed tensor")
+        if n_templates and wide_over_narrow < max(5, n_templates // 4):
+            run.broken("generator:mixed-dtype-shape", f"too few per-individual steps with a float64 proposal that float32 cannot hold over a float32 state: {mstat}",
+                       kind="broken-correspondence")
+        correspond(run, "mtoy", runs, metas)
+        bad = run.vm_bad_indices("masif", HEADER, ASIF_TYPE, [r.asif_case() for r in asif], "(check_as_if xsem_where)", shard=150) or []
     else:
         run.extra["masks_enumerated"] = {f"n={k}": f"{v} histories = {v // (2 ** k)} templates x all {2 ** k} masks" for k, v in sorted(masks_seen.items())}
         correspond(run, "toy", runs, metas)
@@ -514,7 +644,7 @@ def toy_steps(run: Run, n_templates, weighted=False):
         run.fail("model:as-if-reference", "in the Coq model (selection mix) the reads after a sampler-shaped history differ from the reads after "
                  "assigning the expected values directly: the reference used by the oracle and the model's partial revert disagree",
                  dict(graph=r.G.to_json(), ops=r.ops()), kind="broken-correspondence")
-    run.extra["weighted_as_if_cases_in_model" if weighted else "as_if_cases_in_model"] = len(asif)
+    run.extra["weighted_as_if_cases_in_model" if weighted else "mixed_dtype_as_if_cases_in_model" if mixed else "as_if_cases_in_model"] = len(asif)
 
 
 # ----------------------------------------------------------------------------- the witness of F2 on the real State
@@ -1233,6 +1363,11 @@ def main(run: Run):
     except Exception as e:  # noqa
         import traceback
         run.broken("toy-steps-weighted", f"{type(e).__name__}: {e}\n{traceback.format_exc()[-1500:]}")
+    try:
+        toy_steps(run, 200 if thorough else 60, mixed=True)
+    except Exception as e:  # noqa
+        import traceback
+        run.broken("toy-steps-mixed-dtypes", f"{type(e).__name__}: {e}\n{traceback.format_exc()[-1500:]}")
     from harness.props import c03
     cfgs = c03.configs(thorough)
     if not thorough:
@@ -1298,11 +1433,15 @@ def replay(run: Run, path: str):
     G.build()
     if "template" in inp:
         G.log_vars = {nd["parents"][0] for nd in G.nodes if nd["kind"] == "linked" and nd["fun"][0] == "log2"}
+        G.mixed = any("pdtype" in st for st in inp["template"]["steps"])       # a mixed-dtype template (every proposal has its own dtype)
         sr = StepRun(run, G, inp["template"], inp["mask"]).go()
         for op, out, ok in sr.s.records:
             print(f"  {op}  ->  {out}")
         for f in sr.failures:
             print(f"TRACE LEFT after step {f['step']}: node {f['node']}: read {f['observed']} but the reference state gives {f['expected']}  [{f['sig']}]")
+        if G.mixed:
+            st0 = sr.s.states[0]
+            print("  dtypes held by the state at the end:", {n: dt_name(st0._values[n].dtype) for n in G.settable() if st0._values[n] is not None})
         if G.weighted:
             r = rw = run.vm_bad_indices("replay", WHEADER, WCASE_TYPE, [sr.s.coq_case()], "(check_wcase_with wsem_where false)")
             print("implementation agrees with the model (weighted values: `_select` = row-wise selection of value AND weight):", r == [])
